@@ -16,6 +16,7 @@ import os
 import shutil
 import sys
 import tempfile
+import time
 
 import jinja_common as J
 
@@ -69,6 +70,21 @@ def run_history(case):
             if op[0] == "write":
                 path = os.path.join(world, op[1])
                 os.makedirs(os.path.dirname(path), exist_ok=True)
+                if len(op) > 4 and op[4] == "keep_stat" and os.path.isfile(path):
+                    # rewritten IN PLACE (same inode), padded to the old size with a trailing comment, the old modification
+                    # time restored: only the ctime tells (rsync --inplace -t, an editor that preserves times)
+                    st = os.stat(path)
+                    src = J.jinja_source(op[2], world).encode("utf-8")
+                    pad = st.st_size - len(src)
+                    if pad == 0 or pad >= 4:
+                        if pad:
+                            src += b"{#" + b" " * (pad - 4) + b"#}"
+                        time.sleep(0.002)           # a ctime that differs also on coarse clocks
+                        with open(path, "r+b") as f:
+                            f.write(src)
+                        os.utime(path, ns=(st.st_atime_ns, st.st_mtime_ns))
+                        continue
+                    op = op[:4] + ["keep_mtime"]     # sizes cannot be made equal: replace, keeping the mtime
                 if len(op) > 4 and op[4] == "keep_mtime" and os.path.isfile(path):
                     # the file is REPLACED (new inode, new ctime) but keeps the old modification time
                     st = os.stat(path)
